@@ -1,13 +1,18 @@
 mod batch;
 mod corpus;
 mod eval;
+mod gen;
+mod net;
 mod oracle;
 mod sched;
 mod spec;
 mod ty;
 
-use vcommon::{Args, Ctx, Tier};
+use std::collections::BTreeMap;
 
+use vcommon::{Args, Ctx};
+
+use batch::Stage;
 use eval::{Case, Engine};
 use sched::Choices;
 use spec::*;
@@ -26,20 +31,105 @@ fn pool() -> Pool {
     Pool { corpus, refs }
 }
 
-fn dev_build() {
-    let c = corpus::corpus();
-    let specs: Vec<ProgSpec> = c.iter().map(|p| p.spec.clone()).collect();
-    let rep = batch::build("corpus", &specs, &[]);
-    println!("build: {:.1}s rounds={} ok={} failed={}", rep.build_secs, rep.rounds, rep.ok.len(), rep.failed.len());
-    for (n, f) in &rep.failed {
-        println!("FAILED {n}: {:?}\n{}", f.stage, f.msg);
+/// Generated pools are a function of (seed, mode, tier) only, so that C28 / C29 / C33 runs with
+/// the same seed share one compiled batch (slot `gen-safe`), and C30 uses `gen-tick`.
+fn gen_pool(ctx: &Ctx, mode: gen::Mode) -> Vec<ProgSpec> {
+    let (tag, prefix, n) = match mode {
+        gen::Mode::Safe => ("pool-safe", "gs", ctx.tier().pick(30, 300)),
+        gen::Mode::Tick => ("pool-tick", "gt", ctx.tier().pick(24, 200)),
+        gen::Mode::Wild => ("pool-wild", "gw", ctx.tier().pick(30, 300)),
+    };
+    // seed_for mixes in the property id; the pool must not depend on it
+    let seed = ctx.args.seed ^ vcommon::fnv(tag);
+    let mut ch = Choices::new(seed);
+    let mut progs = gen::generate(&mut ch, mode, prefix, n, 8);
+    for p in progs.iter_mut() {
+        gen::mark_keyed_inputs(p);
     }
-    if let Some(i) = &rep.infra {
-        println!("INFRA: {i}");
+    progs
+}
+
+const CHUNK: usize = 50;
+
+/// Accounting of generator bugs (stage-1 / glue failures): excluded + counted, inconclusive above 5 %.
+#[derive(Default)]
+struct GenStats {
+    generated: u64,
+    stage1: u64,
+    other: BTreeMap<String, u64>,
+}
+
+impl GenStats {
+    fn absorb(&mut self, eng: &Engine, slot: &str, progs: &[ProgSpec]) {
+        let Some(rep) = eng.reports.get(slot) else { return };
+        for p in progs {
+            self.generated += 1;
+            for a in &p.traits.avoided {
+                *self.other.entry(format!("avoided-by-construction:{a}")).or_default() += 1;
+            }
+            if let Some(f) = rep.failed.get(&p.name) {
+                match f.stage {
+                    Stage::Stage1 | Stage::Glue => self.stage1 += 1,
+                    _ => *self.other.entry(format!("{:?}", f.stage)).or_default() += 1,
+                }
+            }
+        }
+    }
+    fn finish(&self, ctx: &mut Ctx) {
+        ctx.extra.insert(
+            "generator".into(),
+            serde_json::json!({"generated": self.generated, "stage1_failures": self.stage1, "later_stage_failures": self.other}),
+        );
+        if self.stage1 > 0 {
+            ctx.count_excluded("generator-bug(stage1)", self.stage1);
+        }
+        for (k, v) in &self.other {
+            if k.starts_with("avoided-by-construction:") {
+                ctx.count_excluded(k, *v);
+            } else {
+                ctx.count_excluded(&format!("not-compiled:{k}"), *v);
+            }
+        }
+        if self.generated > 0 && self.stage1 * 20 > self.generated {
+            ctx.inconclusive(format!(
+                "{} of {} generated programs failed stage 1 (type-checking of my own source): above 5 %",
+                self.stage1, self.generated
+            ));
+        }
     }
 }
 
-/// C28 cases for one program: `k` random input contents, each with its tick partitions.
+/// Run `make_cases` over the corpus programs and over the generated pool (in chunks).
+fn drive(
+    ctx: &mut Ctx,
+    eng: &mut Engine,
+    sub: &str,
+    corpus_cases: Vec<Case>,
+    gen_progs: Vec<ProgSpec>,
+    slot: &str,
+    make_cases: &mut dyn FnMut(&ProgSpec) -> Vec<Case>,
+    oracle: &eval::Oracle<'_>,
+) {
+    let mut stats = GenStats::default();
+    if !corpus_cases.is_empty() || ctx.is_replay() {
+        eval::run_cases(ctx, eng, sub, corpus_cases, slot, oracle);
+    }
+    if ctx.is_replay() {
+        return;
+    }
+    for chunk in gen_progs.chunks(CHUNK) {
+        let mut cases = vec![];
+        for p in chunk {
+            cases.extend(make_cases(p));
+        }
+        // make sure the whole chunk is built even if some programs produced no case
+        eng.build_slot(slot, chunk);
+        stats.absorb(eng, slot, chunk);
+        eval::run_cases(ctx, eng, &format!("{sub}-generated"), cases, slot, oracle);
+    }
+    stats.finish(ctx);
+}
+
 fn partition_cases(p: &ProgSpec, ch: &mut Choices, k: usize, max_sched: usize) -> Vec<Case> {
     let mut out = vec![];
     for _ in 0..k {
@@ -54,62 +144,76 @@ fn partition_cases(p: &ProgSpec, ch: &mut Choices, k: usize, max_sched: usize) -
 }
 
 fn c28(ctx: &mut Ctx, eng: &mut Engine, pool: &Pool) {
-    ctx.rule = "corpus (hand-written safe top-level programs modelled on hydro_test / doctests) and generated safe-mode programs, compiled through generate_embedded; per program several random input contents (<=5 items per input, colliding domain); per input content every composition into ticks (single input, <=6 items; plus empty-tick variants) or structured + sampled monotone tick assignments (several inputs), <=64 schedules; oracle: eventual output content (sequence / multiset / per-key sequences / settled snapshot) equals the single-tick run. Non-trivial: program has a top-level stateful operator and a compared schedule spreads the input over >=2 ticks.".into();
+    ctx.rule = "corpus (hand-written safe top-level programs modelled on hydro_test / doctests) and generated safe-mode programs (random typed compositions of top-level operators, 2..9 operators, <=3 inputs, shared subexpressions, bounded sources), compiled through generate_embedded; per program several random input contents (<=5 items per input, colliding domain); per input content every composition into ticks (single input; plus empty-tick variants) or structured + sampled monotone tick assignments (several inputs), <=64 schedules; oracle: eventual output content (sequence / multiset / per-key sequences / settled snapshot) equals the single-tick run. Non-trivial: program has a top-level stateful operator and a compared schedule spreads the input over >=2 ticks; distinct by (program, input content).".into();
     ctx.assume("terminal observation adapters (assume_ordering / entries_partially_ordered / snapshot) are the only nondet! in safe programs; their nondeterminism is neutralised by comparing multisets / per-key subsequences / settled values");
-    ctx.assume("'all inputs processed' = trailing empty ticks until the stream outputs were silent for two consecutive ticks (>=3, <=14 extra ticks); runs that do not settle are excluded and counted, never violations");
+    ctx.assume("'all inputs processed' = trailing empty ticks until the stream outputs were silent for two consecutive ticks (>=3, <=14 extra ticks) and snapshots equal in the last two ticks; runs that do not settle are excluded and counted, never violations");
     let mut ch = Choices::new(ctx.seed_for("c28-inputs"));
-    let k = ctx.tier().pick(3, 10);
+    let k = ctx.tier().pick(3, 8);
     let mut cases = vec![];
     for cp in &pool.corpus {
-        if !cp.spec.traits.safe {
-            continue;
+        if cp.spec.traits.safe {
+            cases.extend(partition_cases(&cp.spec, &mut ch, k, 64));
         }
-        cases.extend(partition_cases(&cp.spec, &mut ch, k, 64));
     }
-    ctx.floor = 20;
-    eval::run_cases(ctx, eng, "partitions", cases, "gen", &oracle::c28);
+    let gen_progs = gen_pool(ctx, gen::Mode::Safe);
+    ctx.floor = 30;
+    let kg = ctx.tier().pick(3, 4);
+    drive(ctx, eng, "partitions", cases, gen_progs, "gen-safe", &mut |p| partition_cases(p, &mut ch, kg, 48), &oracle::c28);
 }
 
-fn c29(ctx: &mut Ctx, eng: &mut Engine, pool: &Pool) {
-    ctx.rule = "programs with TotalOrder outputs or keyed streams with ordered values (corpus + generated); presentations of the same input: tick partitions (as C28) and, for keyed inputs, cross-key interleavings that keep each key's subsequence (all for <=6 items, capped) each again partitioned into ticks; oracle: ordered outputs equal the reference sequence (plain iterator semantics on the concatenated input) under every partition; per-key subsequences are identical under every partition and interleaving and equal the per-key reference. Non-trivial: >=2 keys with >=2 values each compared under >=2 interleavings, or an ordered output with >=3 items under >=3 partitions.".into();
-    ctx.assume("order inside the group of matches of one left element of a join / cross product with a bounded side is not fixed by the docs: compared as a sequence of groups");
-    let mut ch = Choices::new(ctx.seed_for("c29-inputs"));
-    let k = ctx.tier().pick(3, 10);
+fn order_cases(p: &ProgSpec, ch: &mut Choices, k: usize) -> Vec<Case> {
     let mut cases = vec![];
-    for cp in &pool.corpus {
-        let p = &cp.spec;
-        if !p.traits.safe || !p.outputs.iter().any(|o| matches!(o.kind, OutKind::Seq | OutKind::KeyedSeq)) {
-            continue;
-        }
-        let keyed = p.inputs.iter().any(|i| i.keyed) && !p.outputs.iter().any(|o| o.kind == OutKind::Seq);
-        for _ in 0..k {
-            let (inputs, sing) = sched::gen_inputs(p, &mut ch, 6);
-            let mut schedules = sched::partitions(&inputs, &sing, &mut ch, 24);
-            let mut notes: Vec<String> = schedules.iter().map(|_| "partition".to_string()).collect();
-            if keyed {
-                // interleavings of input 0 (the keyed one), each under a few partitions
-                let inter = sched::key_interleavings(&inputs[0], 16);
-                for alt in inter.into_iter().skip(1) {
-                    let mut ins = inputs.clone();
-                    ins[0] = alt;
-                    let ps = sched::partitions(&ins, &sing, &mut ch, 40);
-                    // take the single-tick one and two split ones
-                    let pick = [0usize, ps.len() / 2, ps.len() - 1];
-                    let mut seen = std::collections::BTreeSet::new();
-                    for i in pick {
-                        if seen.insert(i) {
-                            schedules.push(ps[i].clone());
-                            notes.push("interleaving".into());
-                        }
+    if !p.outputs.iter().any(|o| matches!(o.kind, OutKind::Seq | OutKind::KeyedSeq)) {
+        return cases;
+    }
+    // cross-key interleavings are admissible only if no totally ordered output exists
+    let keyed_inputs: Vec<usize> = if p.outputs.iter().any(|o| o.kind == OutKind::Seq) {
+        vec![]
+    } else {
+        p.inputs.iter().enumerate().filter(|(_, i)| i.keyed).map(|(i, _)| i).collect()
+    };
+    for _ in 0..k {
+        let (inputs, sing) = sched::gen_inputs(p, ch, 6);
+        let mut schedules = sched::partitions(&inputs, &sing, ch, 24);
+        let mut notes: Vec<String> = schedules.iter().map(|_| "partition".to_string()).collect();
+        for &ki in &keyed_inputs {
+            let inter = sched::key_interleavings(&inputs[ki], 12);
+            for alt in inter.into_iter().skip(1) {
+                let mut ins = inputs.clone();
+                ins[ki] = alt;
+                let ps = sched::partitions(&ins, &sing, ch, 40);
+                let pick = [0usize, ps.len() / 2, ps.len() - 1];
+                let mut seen = std::collections::BTreeSet::new();
+                for i in pick {
+                    if seen.insert(i) {
+                        schedules.push(ps[i].clone());
+                        notes.push("interleaving".into());
                     }
                 }
             }
-            cases.push(Case { prog: p.clone(), schedules, notes });
+        }
+        cases.push(Case { prog: p.clone(), schedules, notes });
+    }
+    cases
+}
+
+fn c29(ctx: &mut Ctx, eng: &mut Engine, pool: &Pool) {
+    ctx.rule = "programs with TotalOrder outputs or keyed streams with ordered values (corpus + generated safe-mode pool); presentations of the same input: tick partitions (as C28) and, for inputs consumed only as keyed streams, cross-key interleavings that keep each key's subsequence (all for <=6 items, capped at 12) each again partitioned into ticks; oracle: ordered outputs are identical under every partition and (corpus) equal the reference sequence computed by plain iterator semantics on the concatenated input; per-key subsequences are identical under every partition and interleaving and (corpus) equal the per-key reference. Non-trivial: >=2 keys with >=2 values each compared under >=2 interleavings, or an ordered output with >=3 items under >=3 partitions.".into();
+    ctx.assume("order inside the group of matches of one left element of a join / cross product with a bounded side is not fixed by the docs: the corpus reference compares such outputs as a sequence of groups");
+    ctx.assume("generated programs have no hand-written reference: for them the ordered output of the single-tick run in the original input order is the reference sequence");
+    let mut ch = Choices::new(ctx.seed_for("c29-inputs"));
+    let k = ctx.tier().pick(3, 8);
+    let mut cases = vec![];
+    for cp in &pool.corpus {
+        if cp.spec.traits.safe {
+            cases.extend(order_cases(&cp.spec, &mut ch, k));
         }
     }
-    ctx.floor = 10;
+    let gen_progs = gen_pool(ctx, gen::Mode::Safe);
+    ctx.floor = 15;
+    let kg = ctx.tier().pick(2, 3);
     let refs = &pool.refs;
-    eval::run_cases(ctx, eng, "order", cases, "gen", &oracle::c29(refs));
+    drive(ctx, eng, "order", cases, gen_progs, "gen-safe", &mut |p| order_cases(p, &mut ch, kg), &oracle::c29(refs));
 }
 
 fn tick_history(p: &ProgSpec, ch: &mut Choices, max_ticks: usize) -> Schedule {
@@ -133,68 +237,378 @@ fn tick_history(p: &ProgSpec, ch: &mut Choices, max_ticks: usize) -> Schedule {
     Schedule { inputs, sing }
 }
 
+fn window_cases(p: &ProgSpec, ch: &mut Choices, k: usize) -> Vec<Case> {
+    let d = p.outputs.iter().map(|o| o.delay).max().unwrap_or(0) as usize;
+    let mut out = vec![];
+    for _ in 0..k {
+        let s = tick_history(p, ch, 6);
+        let n = s.n_ticks() + 3; // the runner adds 3 trailing empty ticks
+        let mut schedules = vec![s.clone()];
+        let mut notes = vec!["history".to_string()];
+        for t in 0..n {
+            let (w, idx) = oracle::window(&s, t, d);
+            schedules.push(w);
+            notes.push(format!("window:{t}:{idx}"));
+        }
+        out.push(Case { prog: p.clone(), schedules, notes });
+    }
+    out
+}
+
 fn c30(ctx: &mut Ctx, eng: &mut Engine, pool: &Pool) {
-    ctx.rule = "tick programs (input.batch(&tick) -> bounded-collection operators -> all_ticks; defer_tick, tick cycles, across_ticks, optional_first_tick): the batching is given by the schedule; random histories of 3..7 ticks with batch sizes 0..4 (colliding domain) plus 3 forced trailing empty ticks; oracle: every tick's output equals the plain-iterator result on that tick's batch (and on state explicitly carried from the previous tick). Non-trivial: >=3 ticks with different batch sizes including an empty one, program with a cycle or a defer.".into();
+    ctx.rule = "tick programs: (corpus) input.batch(&tick) -> bounded-collection operators -> all_ticks, defer_tick, tick cycles, across_ticks, optional_first_tick, checked per tick against a hand-written batch reference (plain iterator semantics on the tick's batch and on state explicitly carried from the previous tick); (generated) random typed compositions of tick-scoped operators with defer_tick, checked without a model by window locality (tick t's output equals the last tick of a fresh run that sees only the batches t-d..t, d = defer depth) and by the defer shift (an output that is defer_tick() of another output shows that output's previous tick). Histories: 3..7 ticks, batch sizes 0..4 from a colliding domain, plus 3 forced trailing empty ticks. Non-trivial: >=3 ticks with different batch sizes including an empty one, program with a cycle or a defer.".into();
     ctx.assume("the harness drives run_tick() once per schedule tick (an empty tick still runs when the driver ticks)");
     let mut ch = Choices::new(ctx.seed_for("c30-histories"));
-    let k = ctx.tier().pick(12, 60);
+    let k = ctx.tier().pick(12, 50);
     let mut cases = vec![];
     for cp in &pool.corpus {
         let p = &cp.spec;
         if !p.traits.tick_program {
             continue;
         }
-        let schedules: Vec<Schedule> = (0..k).map(|_| tick_history(p, &mut ch, 7)).collect();
-        // one case per schedule keeps replay files small and counts histories individually
-        for s in schedules {
-            cases.push(Case { prog: p.clone(), schedules: vec![s], notes: vec![] });
+        for _ in 0..k {
+            cases.push(Case { prog: p.clone(), schedules: vec![tick_history(p, &mut ch, 7)], notes: vec![] });
+        }
+    }
+    ctx.floor = 30;
+    let refs = &pool.refs;
+    {
+        let o = oracle::c30(refs);
+        eval::run_cases(ctx, eng, "per-tick", cases, "gen-tick", &o);
+    }
+    let gen_progs = gen_pool(ctx, gen::Mode::Tick);
+    let kg = ctx.tier().pick(3, 4);
+    drive(ctx, eng, "window", vec![], gen_progs, "gen-tick", &mut |p| window_cases(p, &mut ch, kg), &oracle::c30_gen);
+}
+
+fn history_cases(p: &ProgSpec, ch: &mut Choices, k: usize) -> Vec<Case> {
+    let mut cases = vec![];
+    if !p.outputs.iter().any(|o| o.promise.is_some()) {
+        return cases;
+    }
+    for _ in 0..k {
+        let mut s = tick_history(p, ch, 8);
+        if s.n_ticks() < 4 {
+            for i in s.inputs.iter_mut() {
+                i.push(vec![]);
+            }
+        }
+        cases.push(Case { prog: p.clone(), schedules: vec![s], notes: vec![] });
+    }
+    cases
+}
+
+fn c33(ctx: &mut Ctx, eng: &mut Engine, pool: &Pool) {
+    ctx.rule = "programs producing collections with a type promise (Singleton<_,_,Monotonic> from count; KeyedSingleton with MonotonicKeys / MonotonicValue from keyed fold / value_counts; BoundedValue from keyed first), from the corpus and from the generated safe-mode pool (random upstream pipelines ending in such an aggregate), observed by a per-tick snapshot output over 4..8 ticks of random input; oracle: history invariant over consecutive snapshots (monotone singleton never decreases; keys never disappear; monotone values never decrease; a bounded value is emitted once per key). Non-trivial: the collection changed in >=2 ticks.".into();
+    let mut ch = Choices::new(ctx.seed_for("c33-histories"));
+    let k = ctx.tier().pick(12, 50);
+    let mut cases = vec![];
+    for cp in &pool.corpus {
+        cases.extend(history_cases(&cp.spec, &mut ch, k));
+    }
+    let gen_progs = gen_pool(ctx, gen::Mode::Safe);
+    ctx.floor = 30;
+    let kg = ctx.tier().pick(6, 8);
+    drive(ctx, eng, "history", cases, gen_progs, "gen-safe", &mut |p| history_cases(p, &mut ch, kg), &oracle::c33);
+}
+
+/// An abstract input with >= 3 distinct values and >= 1 duplicate where the length allows.
+fn rich_items(ty: &ty::Ty, ch: &mut Choices, n: usize) -> Vec<serde_json::Value> {
+    for _ in 0..50 {
+        let items: Vec<serde_json::Value> = (0..n).map(|_| ty.value(&mut || ch.next())).collect();
+        let ms = ty::multiset(&items);
+        let mut d = ms.clone();
+        d.dedup();
+        if n < 4 || (d.len() >= 3 && d.len() < ms.len()) {
+            return items;
+        }
+    }
+    (0..n).map(|_| ty.value(&mut || ch.next())).collect()
+}
+
+fn presentations(adv: corpus::Adv, items: &[serde_json::Value], ch: &mut Choices, max: usize) -> Vec<(String, Vec<serde_json::Value>)> {
+    use corpus::Adv;
+    let mut out: Vec<(String, Vec<serde_json::Value>)> = vec![("canonical".into(), items.to_vec())];
+    match adv {
+        Adv::Fixed => {}
+        Adv::Perm => {
+            for p in sched::permutations(items, max).into_iter().skip(1) {
+                out.push(("perm".into(), p));
+            }
+        }
+        Adv::Stutter => {
+            for p in sched::stutterings(items, max).into_iter().skip(1) {
+                out.push(("stutter".into(), p));
+            }
+        }
+        Adv::PermDup => {
+            let perms = sched::permutations(items, 120);
+            for (i, p) in perms.iter().enumerate().skip(1) {
+                if out.len() >= max / 2 {
+                    break;
+                }
+                if perms.len() <= max / 2 || i % (perms.len() / (max / 2).max(1)).max(1) == 0 {
+                    out.push(("perm".into(), p.clone()));
+                }
+            }
+            // duplicate random items of random permutations (arbitrary position)
+            while out.len() < max {
+                let base = perms[ch.below(perms.len())].clone();
+                let mut v = base.clone();
+                let dups = 1 + ch.below(2);
+                for _ in 0..dups {
+                    if v.is_empty() {
+                        break;
+                    }
+                    let it = v[ch.below(v.len())].clone();
+                    let pos = ch.below(v.len() + 1);
+                    v.insert(pos, it);
+                }
+                if v.len() != base.len() {
+                    out.push(("permdup".into(), v));
+                } else {
+                    break;
+                }
+            }
+        }
+        Adv::KeyInterleave => {
+            for p in sched::key_interleavings(items, max).into_iter().skip(1) {
+                out.push(("interleave".into(), p));
+            }
+        }
+    }
+    out
+}
+
+fn c32(ctx: &mut Ctx, eng: &mut Engine, pool: &Pool) {
+    ctx.rule = "one micro-program per trusted call site (assume_ordering_trusted / assume_retries_trusted / _trusted_bounded: stream max, min, count, first, last, is_empty, repeat_with_keys, weaken/make_* no-ops, keyed value_counts and weakening, keyed-singleton into_singleton / key_count / get_max_key), each at top level (eventual value) and inside a tick (per-batch value); the input is weakened through the safe weaken_* calls and the harness plays the adversary the weakened type admits: all permutations (n<=5) for NoOrder, stuttering duplication (each item 1-2 times adjacently, all masks) for TotalOrder+AtLeastOnce, permutations plus arbitrary duplications for NoOrder+AtLeastOnce, all cross-key interleavings for keyed inputs; top-level presentations additionally split into ticks. Oracle: every admissible presentation gives the same result, equal to the obvious reference. Non-trivial: input with >=3 distinct values and >=1 duplicate under >=2 presentations.".into();
+    ctx.assume("admissible duplication for at-least-once inputs: re-delivery of an element (adjacent for ordered streams), per docs 'duplicates may occur, but messages will not be dropped'");
+    ctx.assume("intermediate values of unbounded max/min are not compared, only settled values");
+    let mut ch = Choices::new(ctx.seed_for("c32-inputs"));
+    let k = ctx.tier().pick(4, 24);
+    let max_pres = ctx.tier().pick(60, 130);
+    let mut cases = vec![];
+    for cp in &pool.corpus {
+        if cp.adv.is_empty() {
+            continue;
+        }
+        let p = &cp.spec;
+        for round in 0..k {
+            let n = if round == 0 { 5 } else { 3 + ch.below(3) };
+            let items: Vec<Vec<serde_json::Value>> = p.inputs.iter().map(|i| rich_items(&i.ty, &mut ch, n)).collect();
+            // vary one input at a time (the first one with a non-fixed adversary)
+            let vi = cp.adv.iter().position(|a| *a != corpus::Adv::Fixed).unwrap_or(0);
+            let pres = presentations(cp.adv[vi], &items[vi], &mut ch, max_pres);
+            let mut schedules = vec![];
+            let mut notes = vec![];
+            for (i, (label, alt)) in pres.iter().enumerate() {
+                let mut ins = items.clone();
+                ins[vi] = alt.clone();
+                if p.traits.tick_program {
+                    // one batch, then (for every 4th presentation) the same items over two batches
+                    schedules.push(sched::single_tick(&ins, &[]));
+                    notes.push(format!("{label}:single-batch"));
+                } else {
+                    schedules.push(sched::single_tick(&ins, &[]));
+                    notes.push(format!("{label}:single-tick"));
+                    if i % 3 == 0 {
+                        let ps = sched::partitions(&ins, &[], &mut ch, 12);
+                        let pick = ps[ps.len() - 1].clone();
+                        schedules.push(pick);
+                        notes.push(format!("{label}:split"));
+                    }
+                }
+            }
+            // partitions of the canonical presentation are tagged "partition" (order-preserving)
+            if cp.adv[vi] == corpus::Adv::Fixed {
+                let ps = sched::partitions(&items, &[], &mut ch, 32);
+                for s in ps.into_iter().skip(1) {
+                    schedules.push(s);
+                    notes.push("partition".into());
+                }
+            }
+            cases.push(Case { prog: p.clone(), schedules, notes });
         }
     }
     ctx.floor = 20;
     let refs = &pool.refs;
-    eval::run_cases(ctx, eng, "per-tick", cases, "gen", &oracle::c30(refs));
+    let o = oracle::c32(refs);
+    eval::run_cases(ctx, eng, "trusted-sites", cases, "gen-safe", &o);
 }
 
-fn c33(ctx: &mut Ctx, eng: &mut Engine, pool: &Pool) {
-    ctx.rule = "programs producing collections with a type promise (Singleton<_,_,Monotonic> from count; KeyedSingleton with MonotonicKeys / MonotonicValue from keyed fold / value_counts; BoundedValue from keyed first), observed by a per-tick snapshot output over 4..8 ticks of random input; oracle: history invariant over consecutive snapshots (monotone singleton never decreases; keys never disappear; monotone values never decrease; a bounded value is emitted once per key). Non-trivial: the collection changed in >=2 ticks.".into();
-    let mut ch = Choices::new(ctx.seed_for("c33-histories"));
-    let k = ctx.tier().pick(12, 60);
-    let mut cases = vec![];
-    for cp in &pool.corpus {
-        let p = &cp.spec;
-        if !p.outputs.iter().any(|o| o.promise.is_some()) {
-            continue;
-        }
-        for _ in 0..k {
-            let mut s = tick_history(p, &mut ch, 8);
-            if s.n_ticks() < 4 {
-                for i in s.inputs.iter_mut() {
-                    i.push(vec![]);
-                }
+fn c35(ctx: &mut Ctx, eng: &mut Engine) {
+    ctx.rule = "random nested payload values (integers at extremes, empty / non-ASCII strings, Vec, Option, tuples, nested enum / struct with serde derives, unit) and random member ids (u32 extremes, 1..4 members) pushed through topologies compiled once with the embedded backend: o2o send, o2m demux, o2m broadcast, m2o send, m2m demux, each with bincode (and embedded) serialization; the harness is the network between the sender's generated sink closure and the receiver's generated source stream. Oracle: receiver output == sender input (sequence per channel); demuxed payloads appear only on the addressed member's wire and the receiver sees the sender's member id; MemberId -> tagless -> MemberId and raw-id / bincode round trips are the identity. Non-trivial: nested payload with a variable-length part and >=2 members (o2o: any nested payload).".into();
+    ctx.assume("the transport delivers frames per channel in order and tags m2o / m2m frames with the sending member (as the repo's own embedded tests do)");
+    let mut ch = Choices::new(ctx.seed_for("c35-values"));
+    let per_topo = ctx.tier().pick(28, 600);
+    let cases = net::cases(&mut ch, per_topo, 12);
+    let values: usize = cases.iter().map(|c| c.schedules[0].inputs[0][0].len()).sum();
+    ctx.extra.insert("values".into(), serde_json::json!(values));
+    ctx.floor = 50;
+    eval::run_cases(ctx, eng, "round-trip", cases, "gen-safe", &net::oracle);
+}
+
+/// Exact, stable signature of a code-generation failure (stage + normalised message).
+fn c41_signature(f: &batch::Failure) -> String {
+    let stage = format!("{:?}", f.stage);
+    let msg = f.msg.clone();
+    let lines: Vec<&str> = msg.lines().collect();
+    let first = lines.first().cloned().unwrap_or("");
+    if first.contains("assertion `left == right` failed") {
+        let grab = |l: &str| -> String {
+            l.split("bound: ").nth(1).and_then(|r| r.split(|c: char| !c.is_alphanumeric()).next()).unwrap_or("?").to_string()
+        };
+        let kind_of = |l: &str| -> String { l.trim().split(|c: char| c == ':' ).nth(1).unwrap_or("").trim().split(' ').next().unwrap_or("").to_string() };
+        let left = lines.iter().find(|l| l.trim_start().starts_with("left:")).cloned().unwrap_or("");
+        let right = lines.iter().find(|l| l.trim_start().starts_with("right:")).cloned().unwrap_or("");
+        return format!(
+            "c41/{stage}/node-metadata-mismatch(left={} bound={},right={} bound={})",
+            kind_of(left),
+            grab(left),
+            kind_of(right),
+            grab(right)
+        );
+    }
+    let mut out = String::new();
+    let mut last_hash = false;
+    for c in first.chars().take(110) {
+        if c.is_ascii_digit() {
+            if !last_hash {
+                out.push('#');
+                last_hash = true;
             }
-            cases.push(Case { prog: p.clone(), schedules: vec![s], notes: vec![] });
+        } else {
+            out.push(c);
+            last_hash = false;
         }
     }
-    ctx.floor = 20;
-    eval::run_cases(ctx, eng, "history", cases, "gen", &oracle::c33);
+    format!("c41/{stage}/{out}")
+}
+
+fn c41_judge(p: &ProgSpec, failure: Option<batch::Failure>, obs: &mut vcommon::Obs) -> Result<(), vcommon::Fail> {
+    for c in &p.traits.classes {
+        obs.class(c.clone());
+    }
+    let has_cycle_or_net = p.traits.cycle_or_defer || p.traits.classes.iter().any(|c| c.starts_with("net-") || c == "forward_ref" || c.starts_with("tick-cycle"));
+    obs.nontrivial(has_cycle_or_net && p.traits.shared);
+    match failure {
+        None => Ok(()),
+        Some(f) => match f.stage {
+            Stage::Stage1 | Stage::Glue => {
+                obs.excluded("generator-bug(stage1)");
+                Ok(())
+            }
+            _ => Err(vcommon::Fail::new(
+                c41_signature(&f),
+                format!(
+                    "well-typed Hydro program {} (stage 1 passed) fails in {:?}:\n{}\nsource:\n{}",
+                    p.name,
+                    f.stage,
+                    f.msg,
+                    p.src.clone().unwrap_or_else(|| "templates/corpus.rs".into())
+                ),
+            )),
+        },
+    }
+}
+
+fn c41(ctx: &mut Ctx, eng: &mut Engine, pool: &Pool) {
+    ctx.rule = "every program of the corpus and of three generated pools (safe-mode, tick-mode and the unrestricted 'wild' generator: top-level and tick operators, nondet APIs, batch / snapshot / all_ticks / latest transitions, tick cycles and forward references that are always completed, tee'd subexpressions feeding both a tick and top-level state, networks between two processes and a cluster with bincode / embedded serialization, sliced!, atomic, by_ref handles) is taken through stage 1 (rustc on my emitted source: failures are generator bugs, excluded and counted) and then FlowBuilder finalisation, emit, DFIR parsing, partition_graph, as_code (generate_embedded, per location, wrapped in catch_unwind) and rustc on the generated code; oracle: after stage 1 every later stage succeeds. Non-trivial: program with a tick cycle / defer / forward reference / network and a shared subexpression.".into();
+    ctx.assume("the simulator builder (flow.sim().compiled()) belongs to engine sim and is not exercised here");
+    if ctx.is_replay() {
+        let cell = std::cell::RefCell::new(&mut *eng);
+        ctx.check_all("compile", Vec::<ProgSpec>::new(), |p: &ProgSpec, obs| {
+            let mut e = cell.borrow_mut();
+            if p.is_corpus() {
+                let specs = e.corpus_specs.clone();
+                e.build_slot("corpus", &specs);
+            } else {
+                e.build_slot("replay", std::slice::from_ref(p));
+            }
+            let f = e.failure_of(&p.name);
+            c41_judge(p, f, obs)
+        });
+        return;
+    }
+    let mut stats = GenStats::default();
+    let mut judge_all = |ctx: &mut Ctx, eng: &Engine, progs: &[ProgSpec]| {
+        for p in progs {
+            let mut obs = vcommon::Obs::default();
+            match c41_judge(p, eng.failure_of(&p.name), &mut obs) {
+                Ok(()) => {
+                    let h = vcommon::fnv(&serde_json::to_string(p).unwrap());
+                    ctx.record("compile", h, &obs, || serde_json::json!({"program": p.name, "classes": p.traits.classes, "src": p.src}));
+                }
+                Err(f) => ctx.report("compile", &f, serde_json::to_value(p).unwrap()),
+            }
+        }
+    };
+    // corpus (+ network topologies)
+    let specs = eng.corpus_specs.clone();
+    eng.build_slot("corpus", &specs);
+    if let Some(i) = eng.reports["corpus"].infra.clone() {
+        ctx.inconclusive(format!("corpus: {i}"));
+        return;
+    }
+    judge_all(ctx, eng, &specs);
+    for (mode, slot) in [(gen::Mode::Safe, "gen-safe"), (gen::Mode::Tick, "gen-tick"), (gen::Mode::Wild, "gen-wild")] {
+        let progs = gen_pool(ctx, mode);
+        for chunk in progs.chunks(CHUNK) {
+            eng.build_slot(slot, chunk);
+            if let Some(i) = eng.reports[slot].infra.clone() {
+                ctx.inconclusive(format!("{slot}: {i}"));
+                return;
+            }
+            stats.absorb(eng, slot, chunk);
+            judge_all(ctx, eng, chunk);
+        }
+    }
+    let _ = pool;
+    ctx.floor = 10;
+    stats.finish(ctx);
+}
+
+fn dev_gen(mode: &str, n: usize, seed: u64) {
+    let mut ch = Choices::new(seed);
+    let m = match mode {
+        "tick" => gen::Mode::Tick,
+        "wild" => gen::Mode::Wild,
+        _ => gen::Mode::Safe,
+    };
+    let progs = gen::generate(&mut ch, m, "g", n, 8);
+    for p in progs.iter().take(6) {
+        println!("{}\n// inputs {:?}\n// outputs {:?}\n", p.src.clone().unwrap(), p.inputs, p.outputs);
+    }
+    let rep = batch::build("gen-dev", &progs, &[]);
+    println!("build: {:.1}s rounds={} ok={} failed={}", rep.build_secs, rep.rounds, rep.ok.len(), rep.failed.len());
+    for (n, f) in &rep.failed {
+        let src = progs.iter().find(|p| &p.name == n).and_then(|p| p.src.clone()).unwrap_or_default();
+        println!("FAILED {n}: {:?}\n{}\n{}", f.stage, f.msg, src);
+    }
+    if let Some(i) = &rep.infra {
+        println!("INFRA: {i}");
+    }
 }
 
 fn main() {
     let a: Vec<String> = std::env::args().collect();
-    if a.get(1).map(|s| s.as_str()) == Some("--dev-build") {
-        dev_build();
+    if a.get(1).map(|s| s.as_str()) == Some("--dev-gen") {
+        dev_gen(&a[2], a[3].parse().unwrap(), a[4].parse().unwrap());
         return;
     }
     let args = Args::parse();
     let mut ctx = Ctx::new(args);
     let pool = pool();
     let mut eng = Engine::new(pool.corpus.iter().map(|p| p.spec.clone()).collect());
-    let _ = Tier::Quick;
+    eng.specials = net::specials();
     match ctx.prop().to_string().as_str() {
         "C28" => c28(&mut ctx, &mut eng, &pool),
         "C29" => c29(&mut ctx, &mut eng, &pool),
         "C30" => c30(&mut ctx, &mut eng, &pool),
+        "C32" => c32(&mut ctx, &mut eng, &pool),
         "C33" => c33(&mut ctx, &mut eng, &pool),
+        "C35" => c35(&mut ctx, &mut eng),
+        "C41" => c41(&mut ctx, &mut eng, &pool),
         other => {
             eprintln!("property {other} is not served by engine hydro");
             std::process::exit(2);
@@ -205,7 +619,7 @@ fn main() {
         timing.insert(
             slot.clone(),
             serde_json::json!({"build_s": rep.build_secs, "rounds": rep.rounds, "ok": rep.ok.len(),
-                "failed": rep.failed.iter().map(|(n, f)| (n.clone(), format!("{:?}", f.stage))).collect::<std::collections::BTreeMap<_, _>>()}),
+                "failed": rep.failed.iter().map(|(n, f)| (n.clone(), format!("{:?}", f.stage))).collect::<BTreeMap<_, _>>()}),
         );
     }
     ctx.extra.insert("batches".into(), serde_json::Value::Object(timing));
